@@ -653,7 +653,7 @@ func textPadLeft(args ...tengo.Object) (ret tengo.Object, err error) {
 		return
 	}
 
-	padCount := ((i2 - padStrLen) / padStrLen) + 1
+	padCount := (i2 - sLen + padStrLen - 1) / padStrLen // enough copies to reach pad_len
 	retStr := strings.Repeat(s3, padCount) + s1
 	ret = &tengo.String{Value: retStr[len(retStr)-i2:]}
 
@@ -716,7 +716,7 @@ func textPadRight(args ...tengo.Object) (ret tengo.Object, err error) {
 		return
 	}
 
-	padCount := ((i2 - padStrLen) / padStrLen) + 1
+	padCount := (i2 - sLen + padStrLen - 1) / padStrLen // enough copies to reach pad_len
 	retStr := s1 + strings.Repeat(s3, padCount)
 	ret = &tengo.String{Value: retStr[:i2]}
 
